@@ -134,7 +134,8 @@ def gen_cases(rnd, n):
             text = 'select %s%s %s JOINTBL on %s' % (rnd.choice(['', '', 'distinct ', 'top 3 ']), sel, kind, rnd.choice(['a1 == b1', 'b1 == a1', 'a1 = b1']))
             if rnd.random() < 0.3:
                 text += rnd.choice([' where a2 != "x"', ' order by a2', ' where b2 != "u"']) if 'left' not in kind else ' order by a2'
-            cases.append({'query': text, 'table': T, 'header': HEADER, 'expect_header': True, 'join_table': B, 'join_header': ['k', 'v']})
+            cases.append({'query': text, 'table': T, 'header': HEADER, 'expect_header': True, 'join_table': B, 'join_header': ['k', 'v'],
+                          'query_js': text.replace(' = b1', ' == b1') if 'a1 = b1' in text else text})
             continue
         if shape == 'update':
             q = {'update': True, 'items': [], 'assigns': [[rnd.randrange(3), rnd.choice([['lit', 'U'], ['concat', ['a', 0], ['lit', '+']], ['a', 2]])]]}
@@ -158,13 +159,120 @@ def gen_cases(rnd, n):
             if shape == 'top':
                 q['top'] = rnd.randint(0, 3)
         text = qgen.render_query(q, 'py', rnd if shape == 'names' else None, HEADER if shape == 'names' else None)
-        c = {'query': text, 'table': T, 'header': HEADER, 'expect_header': True}
+        c = {'query': text, 'table': T, 'header': HEADER, 'expect_header': True, 'query_js': qgen.render_query(q, 'js', None, None)}
         if rnd.random() < 0.2 and not q.get('update'):
             for r in T:
                 r[2] = r[0] + '-' + r[1]
             c['generated_last'] = True
         cases.append(c)
     return cases
+
+
+JS_IMPL = r"""
+const path = require('path'), fs = require('fs'), os = require('os'), cp = require('child_process');
+const repo = process.env.VERIF_REPO || '/repo';
+const rbql = require(path.join(repo, 'rbql-js', 'rbql.js'));
+const rbql_csv = require(path.join(repo, 'rbql-js', 'rbql_csv.js'));
+const csv_utils = require(path.join(repo, 'rbql-js', 'csv_utils.js'));
+const cli = path.join(repo, 'rbql-js', 'cli_rbql.js');
+const norm = rows => rows.map(r => r.map(x => (x === null || x === undefined) ? '' : String(x)));
+const q = (x, d) => csv_utils.quote_field(x, d);
+function parse(text, d, pol) {
+    let lines = text.split('\n'); if (lines.length && lines[lines.length - 1] === '') lines.pop();
+    return lines.map(l => csv_utils.smart_split(l, d, pol, false)[0]);
+}
+let data = '';
+process.stdin.on('data', d => data += d);
+process.stdin.on('end', async () => {
+    const cases = JSON.parse(data);
+    const dir = fs.mkdtempSync(path.join(os.tmpdir(), 'rbqlverif_c13js_'));
+    const out = [];
+    for (let ci = 0; ci < cases.length; ci++) {
+        const c = cases[ci], o = {};
+        const T = c.table, B = c.join_table || null, JH = c.join_header || null;
+        const inp = path.join(dir, 'in_' + ci + '.csv');
+        fs.writeFileSync(inp, [c.header].concat(T).map(r => r.map(x => q(x, ',')).join(',') + '\n').join(''));
+        let jp = null;
+        if (B !== null) { jp = path.join(dir, 'join_' + ci + '.csv'); fs.writeFileSync(jp, [JH].concat(B).map(r => r.map(x => q(x, ',')).join(',') + '\n').join('')); }
+        const attempt = async (name, fn) => { try { o[name] = await fn(); } catch (e) { o[name] = {err: rbql.exception_to_error_info(e)[0]}; } };
+        await attempt('query_table', async () => {
+            const rows = [], names = [];
+            await rbql.query_table(c.query_js.replace('JOINTBL', 'b'), T.map(r => r.slice()), rows, [], B === null ? null : B.map(r => r.slice()), c.header, JH, names);
+            return {rows: norm(rows), header: names.length ? names : null};
+        });
+        for (const bulk of [false, true]) {
+            await attempt('query_csv' + (bulk ? '_bulk' : ''), async () => {
+                const outp = path.join(dir, 'out_' + ci + (bulk ? 'b' : 's') + '.csv');
+                await rbql_csv.query_csv(c.query_js.replace('JOINTBL', jp || 'b'), inp, ',', 'quoted', outp, ',', 'quoted', 'utf-8', [], true, null, '', {'bulk_read': bulk});
+                await new Promise(r => setTimeout(r, 0));
+                const recs = parse(fs.readFileSync(outp, 'utf-8'), ',', 'quoted');
+                return {rows: recs.slice(1), header: recs.length ? recs[0] : null};
+            });
+        }
+        if (c.cli) {
+            const qtext = c.query_js.replace('JOINTBL', jp || 'b');
+            const outp = path.join(dir, 'cli_' + ci + '.csv');
+            let r = cp.spawnSync(process.execPath, [cli, '--input', inp, '--delim', ',', '--policy', 'quoted', '--with-headers', '--query', qtext, '--output', outp], {encoding: 'utf-8'});
+            o['cli_file'] = {rc: r.status, stdout: r.stdout, stderr: r.stderr, rows: (r.status === 0 && fs.existsSync(outp)) ? parse(fs.readFileSync(outp, 'utf-8'), ',', 'quoted') : null};
+            r = cp.spawnSync(process.execPath, [cli, '--delim', ',', '--policy', 'quoted', '--with-headers', '--query', qtext, '--out-format', 'csv'], {encoding: 'utf-8', input: fs.readFileSync(inp, 'utf-8')});
+            o['cli_stdio_csv'] = {rc: r.status, stderr: r.stderr, rows: r.status === 0 ? parse(r.stdout, ',', 'quoted') : null, stdout_raw: r.status === 0 ? '' : r.stdout};
+        }
+        out.push(o);
+    }
+    fs.rmSync(dir, {recursive: true, force: true});
+    console.log(JSON.stringify(out));
+});
+"""
+
+
+def js_frontends(res, cases, tier):
+    """the same through the rbql-js entry points: query_table (reference), query_csv streamed and bulk_read, cli_rbql.js file and stdin"""
+    sub = [dict(c) for c in cases if c.get('query_js')]
+    for i, c in enumerate(sub):
+        c['cli'] = (i % 4 == 0)
+        if i % 2 == 1:
+            # column names that need quoting in the output header (the JS texts never refer to columns by name)
+            c['header'] = ['id', 'last, first', 'said "what"'][:len(c['header'])]
+            if c.get('join_header'):
+                c['join_header'] = ['k;x', 'v, "w"']
+    r = subprocess.run([common.NODE, '-e', JS_IMPL], input=json.dumps(sub).encode(), env=common.impl_env(), stdout=subprocess.PIPE, stderr=subprocess.PIPE, timeout=1800)
+    try:
+        outs = json.loads(r.stdout.decode().strip().split('\n')[-1])
+    except (ValueError, IndexError):
+        raise RuntimeError('C13 js driver failed: ' + r.stderr.decode()[-500:])
+    nbad = 0
+    for c, o in zip(sub, outs):
+        res.evaluations += len(o)
+        res.nontrivial.add('js|' + c['query_js'] + '|' + json.dumps(c['table']))
+        ref = o['query_table']
+        why = None
+        for name in ('query_csv', 'query_csv_bulk'):
+            if o[name] != ref:
+                why = 'rbql-js %s differs from rbql-js query_table: %s vs %s' % (name, json.dumps(o[name])[:300], json.dumps(ref)[:300])
+                break
+        if why is None and c['cli']:
+            for name in ('cli_file', 'cli_stdio_csv'):
+                v = o[name]
+                if 'err' in ref:
+                    if v['rc'] == 0 or 'Error' not in v['stderr']:
+                        why = 'rbql-js %s: the query fails (%s) but exit status is %s' % (name, ref['err'], v['rc'])
+                    continue
+                want = ([ref['header']] if ref['header'] else []) + ref['rows']
+                if v['rc'] != 0:
+                    why = 'rbql-js %s exited with %s: %s' % (name, v['rc'], (v['stderr'] or '')[:200])
+                elif v['rows'] != want:
+                    why = 'rbql-js %s result differs from query_table: %s vs %s' % (name, json.dumps(v['rows'])[:300], json.dumps(want)[:300])
+                elif name == 'cli_file' and v['stdout'] != '':
+                    why = 'rbql-js cli_file wrote to stdout: %r' % v['stdout'][:80]
+                if why:
+                    break
+        if why:
+            nbad += 1
+            if nbad <= 4:
+                res.violations.append({'property': 'C13', 'impl': 'js', 'why': why, 'query_js': c['query_js'], 'table': c['table'], 'header': c['header'], 'join_table': c.get('join_table'),
+                                       'query_table_says': ref, 'case_key': 'C13|js|' + c['query_js'] + '|' + json.dumps(c['table'])})
+    res.count('js_frontend_cases', len(sub))
+    res.count('js_frontend_disagreements', nbad)
 
 
 def run_cli(args, stdin_data=None):
@@ -258,6 +366,7 @@ def run(res, tier, seed):
                 res.violations.append({'property': 'C13', 'impl': 'py', 'why': why, 'query_py': c['query'], 'table': c['table'], 'header': c['header'], 'join_table': c.get('join_table'), 'join_header': c.get('join_header'), 'query_table_says': ref,
                                        'case_key': 'C13|' + c['query'] + '|' + json.dumps(c['table'])})
     res.count('disagreements', nbad)
+    js_frontends(res, cases, tier)
     for c in cases[:3]:
         res.sample({'query': c['query'], 'table': c['table'], 'header': c['header']})
     # CLI error discipline against the Lean decision table (cliRun)
